@@ -20,3 +20,14 @@ Proof.
   assert (L : length (w ++ r) = length (firstn k w)) by (rewrite Er; reflexivity).
   rewrite app_length, firstn_length in L. lia.
 Qed.
+
+(* the premises are met by every accepted input: its own serialisation is such a w *)
+Theorem read_lease_set_accepted_prefix_free d l : wf d -> read_lease_set d = Ok l ->
+  exists b, lease_set_bytes l = Ok b /\ read_lease_set b = Ok l /\
+    forall k, (k < length b)%nat -> forall l', read_lease_set (firstn k b) <> Ok l'.
+Proof.
+  intros W R. destruct (read_lease_set_strip d l W R) as (b & r & B & E & Rb).
+  exists b. split; [exact B|]. split; [exact Rb|].
+  assert (Wb : wf b). { rewrite <- E in W. apply wf_app in W. exact (proj1 W). }
+  exact (read_lease_set_prefix_free b l Wb Rb B).
+Qed.
